@@ -325,11 +325,11 @@ pub fn run(rep: &mut Report) {
         sweep(rep, "c03.scan_pair", nsc, |i, out| {
             let a = scan_dur(i, 0);
             // one pair in four is a near miss of the first operand (same count, +-1 ns, exact negation)
-            let b = match i % 8 { 0 => a, 1 => (a + 1).min(DMAX), 2 => (a - 1).max(DMIN), 3 => -a, _ => scan_dur(i, 1) };
+            let b = match i % 8 { 0 => a, 1 => (a + 1).min(DMAX), 2 => (a - 1).max(DMIN), 3 => -a, _ => scan_dur(i + i / 3, 1) };
             j_pair(a, b, out)
         });
-        sweep(rep, "c03.scan_triple", nsc / 4, |i, out| j_triple(scan_dur(i, 2), scan_dur(i, 3), scan_dur(i, 4), out));
-        sweep(rep, "c03.scan_addmono", nsc, |i, out| j_addmono(scan_dur(i, 5), scan_dur(i + 1, 0), out));
+        sweep(rep, "c03.scan_triple", nsc / 4, |i, out| j_triple(scan_dur(i, 2), scan_dur(i + i / 3, 3), scan_dur(i + i / 9, 4), out));
+        sweep(rep, "c03.scan_addmono", nsc, |i, out| j_addmono(scan_dur(i, 5), scan_dur(i + i / 3, 0), out));
         sweep(rep, "c03.scan_unit", 9 * (nsc / 8), |i, out| j_unit(scan_dur(i / 9, 1), UNITS[(i % 9) as usize], out));
         sweep(rep, "c03.scan_derived", 36 * (nsc / 32), |i, out| j_derived((i % 36) as usize, scan_dur(i / 36, 2), out));
     }
